@@ -470,6 +470,13 @@ def run(program, ctx):
     c07.rule_cascade(program, ctx, prop=P, rid="C17.cascade")
     c01.rule_tagindex(program, ctx, prop=P, rid="C17.tagindex")
     c07.rule_enqueue(program, ctx, prop=P, rid="C17.enqueue")
+    from . import c08
+
+    c08.rule_deletes(program, ctx, prop=P, rid="C17.deletes")
+    # a storage subclass (recipe) must not keep ephemeral / expiring events away from the base class' post_save bookkeeping
+    c07.rule_overrides(program, ctx, prop=P, rid="C17.overrides")
+    # the collector finds expiring events through their tag rows: process_tags failures must abort the insert, not be swallowed
+    c07.rule_sqlregion(program, ctx, prop=P, rid="C17.txn")
     ctx.note("informational: the LMDB GC's end key to_key(29999) is a strict prefix of every kind-29999 key, so `key > end` stops before them; moot today because "
              "ephemeral events are never written to LMDB (C17.bypass)")
     ctx.not_decided += [
